@@ -49,6 +49,9 @@ def untag(d):
         return bytearray(base64.b64decode(d['v']))
     if t == 'text':
         return d['v']
+    if t == 'unjson':
+        # a value json.dumps() cannot serialise (what a connect handler may well return)
+        return {'error': 'banned', 'until': {1}}
     return json.loads(d['v'])
 
 
